@@ -303,6 +303,8 @@ class MatcherAtoms:
             l, r = e.left, e.comparators[0]
             if isinstance(r, ast.Constant) and isinstance(r.value, bool):
                 return None
+            if isinstance(e.ops[0], (ast.Eq, ast.NotEq)) and any(isinstance(x, (ast.Compare, ast.BoolOp)) or (isinstance(x, ast.UnaryOp) and isinstance(x.op, ast.Not)) for x in (l, r)):
+                return None  # (comparison) == / != (truth value): an equivalence of formulas, not an ordering
             key, flip = self.ordering(l, r)
             op = type(e.ops[0])
             table = {
